@@ -22,7 +22,7 @@ pub struct Api;
 static FIXTURE: Mutex<Option<db::Fixture>> = Mutex::new(None);
 static FRESH: Mutex<Option<db::Fixture>> = Mutex::new(None);
 
-const DEADLINE: Duration = Duration::from_secs(4);
+const DEADLINE: Duration = Duration::from_secs(8);
 
 /// what the text promises, read off the sqlparser AST
 struct Expect {
@@ -133,8 +133,9 @@ fn check_shape(out: &QueryOutput, ex: Option<&Expect>, known_table_cols: Option<
     let ncols = out.colnames.len();
     // column view: same names, same order
     if out.columns.len() != ncols {
+        let empty_table = out.columns.is_empty() && out.rows.as_ref().map_or(false, |r| r.is_empty());
         return Some((
-            "shape:columns-vs-colnames".into(),
+            if empty_table { "shape:columns-empty-for-empty-table".into() } else { "shape:columns-vs-colnames".to_string() },
             format!("colnames has {} entries but columns has {}", ncols, out.columns.len()),
         ));
     }
@@ -165,8 +166,10 @@ fn check_shape(out: &QueryOutput, ex: Option<&Expect>, known_table_cols: Option<
                     match cell_of(&out.columns[j].1, i) {
                         Some(c) if same_cell(&c, cell) => {}
                         other => {
+                            // NULL in the row view, the raw null sentinel (NaN, i64::MAX, ...) in the column view
+                            let sentinel = matches!((&other, cell), (Some(c), Value::Null) if !matches!(c, Value::Null));
                             return Some((
-                                "shape:row-vs-column".into(),
+                                if sentinel { "shape:row-vs-column:null-vs-sentinel".into() } else { "shape:row-vs-column".to_string() },
                                 format!("cell ({}, {}) is {:?} in the row view and {:?} in the column view", i, j, cell, other),
                             ))
                         }
@@ -197,8 +200,17 @@ fn check_shape(out: &QueryOutput, ex: Option<&Expect>, known_table_cols: Option<
                     Some(names) => names.contains(&out.colnames[j]),
                 };
                 if !ok {
+                    // finding F29: the text merely starts with a quoted identifier and lost its first and last byte
+                    let quoted_prefix = want.as_ref().map_or(false, |names| {
+                        names.iter().any(|n| {
+                            let cs: Vec<char> = n.chars().collect();
+                            cs.len() >= 2
+                                && (cs[0] == '"' || cs[0] == '`')
+                                && cs[1..cs.len() - 1].iter().collect::<String>() == out.colnames[j]
+                        })
+                    });
                     return Some((
-                        "shape:name".into(),
+                        if quoted_prefix { "shape:name:quoted-prefix".into() } else { "shape:name".to_string() },
                         format!("select item {} should be named one of {:?}, got {:?}", j, want, out.colnames[j]),
                     ));
                 }
@@ -210,8 +222,10 @@ fn check_shape(out: &QueryOutput, ex: Option<&Expect>, known_table_cols: Option<
                         if !cols.contains(&name.as_str()) {
                             let all_null = (0..len).all(|i| matches!(cell_of(&out.columns[j].1, i), Some(Value::Null)));
                             if !all_null {
+                                // finding F6d: the identifier's value itself starts with a quote and is stripped again
+                                let double = name.starts_with('"') || name.starts_with('`');
                                 return Some((
-                                    "shape:unknown-column-not-null".into(),
+                                    if double { "shape:unknown-column-not-null:double-strip".into() } else { "shape:unknown-column-not-null".to_string() },
                                     format!("column {:?} does not exist but result column {} is not all NULL", name, j),
                                 ));
                             }
@@ -294,8 +308,29 @@ impl Suite for Api {
         }
         let _ = db::take_panics();
         let ex = expect(&text);
-        let called = call(guard.as_ref().unwrap(), &text);
-        let panics = db::take_panics();
+        let mut called = call(guard.as_ref().unwrap(), &text);
+        let mut panics = db::take_panics();
+        if !panics.is_empty() && matches!(&called, Called::Ok(_) | Called::Err(_)) && !matches!(&called, Called::Err(QueryError::Canceled { .. })) {
+            // the call returned although a thread panicked: the panic may belong to a straggler thread of
+            // an earlier, discarded database. Settle, rebuild, and repeat the call once.
+            *guard = None;
+            std::thread::sleep(Duration::from_millis(300));
+            let _ = db::take_panics();
+            match db::build(4, false, !fresh) {
+                Ok(fx) => *guard = Some(fx),
+                Err(e) => {
+                    return vec![Outcome {
+                        impl_out: Some(Sx::a("fixture-failed")),
+                        oracle: Some(format!("building the fixture database failed: {}", e)),
+                        signature: Some("fixture-build".into()),
+                        nontrivial: true,
+                        ..Default::default()
+                    }]
+                }
+            }
+            called = call(guard.as_ref().unwrap(), &text);
+            panics = db::take_panics();
+        }
         let mut tainted = !panics.is_empty();
         let mut oracle: Option<(String, String)> = None;
         let impl_out;
@@ -362,8 +397,10 @@ impl Suite for Api {
             }
         }
         if tainted {
-            // the database may have lost a worker or hold a poisoned lock: never reuse it
+            // the database may have lost a worker or hold a poisoned lock: never reuse it; give its
+            // remaining threads a moment to finish so that their panics are not attributed to the next case
             *guard = None;
+            std::thread::sleep(Duration::from_millis(30));
         }
         let nontrivial = !matches!(&called, Called::Err(QueryError::ParseError(_)));
         vec![Outcome {
